@@ -1,6 +1,7 @@
 package main
 
 import (
+	"fmt"
 	"time"
 
 	"verifharness/internal/rty"
@@ -76,4 +77,52 @@ type Cfg5 struct {
 		Leafy
 		W string `dials:"w"`
 	}
+}
+
+// Config types with a Verify method (dials.VerifiedConfig): an update whose
+// stacked result is rejected must not be installed, is an error event, and a
+// BlockingReportNewValue of it returns the error.
+
+type CfgV1 struct {
+	Name  string `dialsalias:"old_name"`
+	Limit int16  `dials:"lim"`
+	In    struct {
+		Ratio float64
+		Mode  rty.NLevel
+	}
+	Tags map[string]struct{}
+}
+
+// Verify rejects Limit < -50 (pointer receiver).
+func (c *CfgV1) Verify() error {
+	if c.Limit < -50 {
+		return fmt.Errorf("limit %d too small", c.Limit)
+	}
+	return nil
+}
+
+type CfgV2 struct {
+	Emb
+	P     *Leafy
+	Count rty.NCount `dialsalias:"old_count"`
+	D     time.Duration
+}
+
+// Verify rejects Count < 0 (value receiver).
+func (c CfgV2) Verify() error {
+	if c.Count < 0 {
+		return fmt.Errorf("count %d negative", c.Count)
+	}
+	return nil
+}
+
+// verifyRule describes Verify() to the model: reject when field idx is an integer below bound.
+func verifyRule(typ int) string {
+	switch typ {
+	case 5:
+		return "(Some (1%nat, (-50)%Z))"
+	case 6:
+		return "(Some (2%nat, 0%Z))"
+	}
+	return "None"
 }
